@@ -434,3 +434,11 @@ Definition t_std : table := [Some (OInh 0, false); Some (OInh 1, false); Some (O
 Definition builtin_child_text (bcfix capture last : bool) (k : kid) : option (option obj * option obj) :=
   if capture && last && negb bcfix then None
   else Some (option_map fst (lookup (tab (k_proc k)) 1), option_map fst (lookup (tab (k_proc k)) 2)).
+
+(* the files a process opened, oldest first, with the mode (r / truncate / append), from its trace *)
+Fixpoint ev_opens (l : list ev) : list (nat * fmode) :=
+  match l with
+  | [] => []
+  | EOpen path m _ :: r => ev_opens r ++ [(path, m)]
+  | _ :: r => ev_opens r
+  end.
